@@ -5,6 +5,7 @@ package main
 
 import (
 	"fmt"
+	"regexp"
 	"go/types"
 	"math/big"
 	"sort"
@@ -624,6 +625,10 @@ type localCell struct {
 // havocAll replaces every heap class by a fresh array. Cells of local variables whose address never leaves the
 // function (escape analysis in enc.go) keep their content: unknown code cannot reach them.
 func (vc *VC) havocAll(st *State, why string) {
+	vc.havocAllKeep(st, func(localCell) bool { return true })
+}
+
+func (vc *VC) havocAllKeep(st *State, keep func(localCell) bool) {
 	old := st.clone()
 	for _, k := range vc.classOrd {
 		st.heap[k] = vc.freshConst(k+"@hv", vc.classSortByName(k))
@@ -632,7 +637,9 @@ func (vc *VC) havocAll(st *State, why string) {
 	vc.assume("(>= " + nhw + " " + st.hw + ")")
 	st.hw = nhw
 	for _, c := range vc.localCells {
-		vc.store(st, c.addr, c.typ, vc.load(old, c.addr, c.typ))
+		if keep(c) {
+			vc.store(st, c.addr, c.typ, vc.load(old, c.addr, c.typ))
+		}
 	}
 }
 
@@ -801,9 +808,9 @@ func (vc *VC) alloc(st *State, hint string) string {
 func (vc *VC) refFact(st *State, t types.Type, v string) string {
 	switch t.Underlying().(type) {
 	case *types.Pointer, *types.Map, *types.Chan:
-		return fmt.Sprintf("(and (>= (base %s) 0) (<= (base %s) %s))", v, v, st.hw)
+		return fmt.Sprintf("(<= (base %s) %s)", v, st.hw)
 	case *types.Slice:
-		return fmt.Sprintf("(and (>= (base (s_arr %s)) 0) (<= (base (s_arr %s)) %s) (>= (s_off %s) 0) (>= (s_len %s) 0) (>= (s_cap %s) (s_len %s)) (=> (= (s_arr %s) 0) (= (s_cap %s) 0)) (< (+ (s_off %s) (s_cap %s)) 4611686018427387904))", v, v, st.hw, v, v, v, v, v, v, v, v)
+		return fmt.Sprintf("(and (<= (base (s_arr %s)) %s) (>= (s_off %s) 0) (>= (s_len %s) 0) (>= (s_cap %s) (s_len %s)) (=> (= (s_arr %s) 0) (= (s_cap %s) 0)) (< (+ (s_off %s) (s_cap %s)) 4611686018427387904))", v, st.hw, v, v, v, v, v, v, v, v)
 	}
 	return ""
 }
@@ -976,5 +983,24 @@ func implies(a, b string) string {
 func (vc *VC) oblige(class, label, guard, formula, clause string, props []string, pos string) *Obligation {
 	o := &Obligation{Func: vc.fn, Class: class, Label: label, Props: props, Guard: guard, Formula: formula, Clause: clause, NDecls: len(vc.lines), Pos: pos}
 	vc.obls = append(vc.obls, o)
+	// vacuity guard: a clause of the form A ==> B is only worth something if A can hold where the clause is checked
+	if coverClasses[class] {
+		if nodes := parseSx(formula); len(nodes) == 1 && !nodes[0].leaf && len(nodes[0].list) == 3 && nodes[0].list[0].atom == "=>" {
+			ante := nodes[0].list[1].String()
+			lab := class
+			if label != "" {
+				lab += ":" + siteRe.ReplaceAllString(label, "")
+			}
+			c := &Obligation{Func: vc.fn, Class: "cover", Label: lab, Props: []string{"vacuity"}, Guard: and(guard, ante), Formula: "false",
+				Clause: "the antecedent of this clause is reachable: " + clause, NDecls: len(vc.lines), Pos: pos, Expect: "sat"}
+			vc.obls = append(vc.obls, c)
+		}
+	}
 	return o
 }
+
+// site counters (#3) are stripped from cover labels: a clause that applies to several call sites is vacuous only if
+// its antecedent is unreachable at all of them
+var siteRe = regexp.MustCompile(`#[0-9]+`)
+
+var coverClasses = map[string]bool{"at-call": true, "onk": true, "nok": true, "post": true, "at-event": true}
